@@ -20,7 +20,7 @@ contract(
     props="C05",
     block=("assign upper_bound #0", "for #0"),
     params={"matrix": A2("MT"), "n_cities": PYINT},
-    i64=False,
+    i64=False, npscalars=True,
     requires=["n_cities >= 2 and shape(matrix, 0) == n_cities and shape(matrix, 1) == n_cities"],
     loops={
         "0": Loop(inv=[
@@ -51,7 +51,7 @@ contract(
     props="C05",
     block=("for #2", "for #2"),
     params={"obj": A2("O"), "matrix": A2("MT"), "n_cities": PYINT},
-    i64=False,
+    i64=False, npscalars=True,
     requires=["n_cities >= 2 and shape(matrix, 0) == n_cities and shape(matrix, 1) == n_cities"
               " and shape(obj, 0) == n_cities and shape(obj, 1) == n_cities"],
     loops={
@@ -148,7 +148,7 @@ contract(
     block=("assign limit #0", "assign obj #0"),
     params={"upper_bound_range_multiplier": PYINT, "upper_bound": PYINT, "n_cities": PYINT, "cls": OBJ},
     attrs={"use_shape": "(n_cities, n_cities)"},
-    i64=False,
+    i64=False, npscalars=True,
     requires=["n_cities >= 2 and upper_bound >= 1"],
     opaque={"check_int_range": _cir_t, "int_range_to_dtype": _irtd_t},
     ensures=[tag("C05 C06 C13", "signed-type-holding-every-tour-length",
@@ -163,7 +163,7 @@ contract(
     props="C05",
     block=("assign tour_length_lower_bound #0", "assign tour_length_lower_bound #0"),
     params={"tour_length_lower_bound": PYINT, "lower_bound_2": PYINT},
-    i64=False,
+    i64=False, npscalars=True,
     requires=["tour_length_lower_bound >= 0 and lower_bound_2 >= 0"],
     opaque={"check_int_range": contract("<opaque>:check_int_range4", params={"v": PYINT, "name": OBJ, "lo": PYINT, "hi": PYINT},
                                         returns=PYINT, ensures=["result == v and lo <= v and v <= hi"],
@@ -177,7 +177,7 @@ contract(
     props="C05",
     block=("assign obj.name #0", "assign obj.is_symmetric #0"),
     params={"use_name": OBJ, "n_cities": PYINT, "tour_length_lower_bound": PYINT, "upper_bound": PYINT, "is_symmetric": BOOL},
-    i64=False,
+    i64=False, npscalars=True,
     ensures=[tag("C05", "bounds-and-flag-stored-as-computed",
                  "obj.tour_length_lower_bound <= tour_length_lower_bound and obj.tour_length_upper_bound >= upper_bound"
                  " and obj.is_symmetric == is_symmetric and obj.n_cities == n_cities")],
